@@ -13,8 +13,11 @@ POSITION RULE.  A mutant passes if some `[L<l> C<c>] … (Error)` line lies
          `add` body at the site), or
   loose: inside the span of the statement enclosing the site (the compiler reports some
          faults at the statement, e.g. at the `:=`).
-Anything else is `wrong-position`.  Both counts are reported per kind in the evidence
-(coverage.typing.per_kind; on the unchanged tree every mutant so far passed by the tight rule).
+  block: only when the statement is the single statement of a `{…}` body: on the head line of the
+         enclosing definition (a one-element sequence has no node of its own; the compiler gives
+         some faults of `{ x }` the position of the `{`).
+Anything else is `wrong-position`.  The three counts are reported per kind in the evidence
+(coverage.typing.per_kind).
 
 Also tied on every run: the decision model of "no back end after errors" (Model/EmitGate.lean) -
 for every compile the set of back-end outputs left behind is compared with the model's answer
@@ -24,8 +27,14 @@ Family constraints that are not typing rules (Prog.familyOk, checked by the driv
 names; `import` and file-level statements follow the `add` definitions (the compiler's
 "implementation restriction: cannot use a non-lazy constant outside an `add` before it has been
 defined"); the header imports MachineInteger, Integer, Boolean, String (literals need them).
-Quick tier: whole programs until ~3000 compiler runs; of the (up to 3) wrong literal types for one
-argument one is compiled (all in thorough).  VERIF_TYPING_BUDGET overrides the number of runs.
+The family also has default-valued parameters, calls that omit them, keyword arguments, signatures
+with and without parameter names, and the value positions of a body (`return e`, last expression,
+`c => v`, bare-expression body).  A keyword `k == e` is scoped where the call stands: the compiler
+rejects it when `k` is a parameter or variable there, and so does the model (`keysFree`).
+Quick tier: whole programs until ~3000 compiler runs; the fixed first program completely, of the
+others the rare kinds completely and the frequent kinds (COMMON_KINDS) sampled by seeded choice
+(one of the up to 3 wrong literal types per argument, at most PER_PROGRAM sites per program); thorough:
+everything.  VERIF_TYPING_BUDGET overrides the number of runs.
 """
 import json, os, re
 from vlib import common, aldor
@@ -41,18 +50,27 @@ THEOREMS = [("AldorVerif.Props.C06", "AldorVerif.MiniTy." + t) for t in (
     "checker_sound_complete", "mutant_ill_typed", "mutant_ill_typed_wrongArgType",
     "mutant_ill_typed_wrongArgCount", "mutant_ill_typed_undefinedName", "mutant_ill_typed_ambiguous",
     "mutant_ill_typed_assignConst", "mutant_ill_typed_wrongReturnType", "mutant_ill_typed_missingExport",
-    "mutant_ill_typed_paramLacksOp", "mutant_not_well_typed")] + \
+    "mutant_ill_typed_paramLacksOp", "mutant_ill_typed_unknownKeyword", "mutant_ill_typed_tooManyPositional",
+    "mutant_ill_typed_keywordDupPositional", "mutant_ill_typed_omitRequired", "mutant_not_well_typed")] + \
     [("AldorVerif.Props.C06", "AldorVerif.EmitGate." + t) for t in (
     "no_outputs_after_error", "outputs_iff_no_error", "no_link_after_error", "cleanup_removes_partial")]
 
 KINDS = ["wrongArgType", "wrongArgCount", "undefinedName", "ambiguous", "assignConst", "wrongReturnType",
-         "missingExport", "paramLacksOp"]
+         "missingExport", "paramLacksOp", "unknownKeyword", "tooManyPositional", "keywordDupPositional", "omitRequired"]
+PER_PROGRAM = 110
+COMMON_KINDS = ("wrongArgType", "wrongArgCount", "undefinedName", "wrongReturnType", "unknownKeyword")   # sampled in the quick tier
 TYS = ["m", "i", "b", "s"]
 FLAGS = ["ao", "c", "fm"]
 CODE_EXT = (".ao", ".c", ".fm", ".lsp", ".o", ".java", ".asy")
 RS, NL = "\x1e", "\x1f"
 
 # ----------------------------------------------------------------------------- python copy of the rules
+# abstract syntax (python side)
+#   expr   ("L", ty, n) | ("V", x) | ("A", f, q|None, [args], [keys])   the last len(keys) args are `k == e`
+#   stmt   ("c", x, ty, e) | ("v", x, ty, e) | ("a", x, e) | ("r", e) | ("e", e) body value | ("x", c, e)  c => e
+#   param  (name, ty, default literal value | None)
+#   sig    (name, (param…), res, anon)        fundef {"name","params","res","body","bare"}
+#   decl   ("C", name, [sig]) ("D", name, cat, [fundef]) ("F", name, T, pcat, cat, [fundef]) ("U", fundef) ("I", dom) ("S", stmt)
 class Env:
     def __init__(self, g, locals_=None, in_fun=False, param=None, sibs=()):
         self.g, self.locals, self.in_fun, self.param, self.sibs = g, dict(locals_ or {}), in_fun, param, list(sibs)
@@ -68,7 +86,13 @@ def global_env(prog):
     return g
 
 def sig_of(fd):
-    return (fd["name"], tuple(t for _, t in fd["params"]), fd["res"])
+    return (fd["name"], tuple(fd["params"]), fd["res"], False)
+
+def sig_types(s):
+    return tuple(p[1] for p in s[1])
+
+def same_type(a, b):
+    return a[0] == b[0] and sig_types(a) == sig_types(b) and a[2] == b[2]
 
 def meanings(env, f, q):
     g = env.g
@@ -77,33 +101,64 @@ def meanings(env, f, q):
         outer = [("top", s) for s in g["funcs"] if s[0] == f]
         for d in g["imports"]:
             outer += [("dom:" + d, s) for s in g["cats"].get(g["doms"].get(d), []) if s[0] == f]
-        return [("sib", s) for s in sibs] + [m for m in outer if m[1] not in sibs]
+        return [("sib", s) for s in sibs] + [m for m in outer if not any(same_type(x, m[1]) for x in sibs)]
     if env.param and env.param[0] == q:
         return [("par", s) for s in g["cats"].get(env.param[1], []) if s[0] == f]
     return [("dom:" + q, s) for s in g["cats"].get(g["doms"].get(q), []) if s[0] == f]
 
+def single_export(env, f, q):
+    """some meaning of `f` is the export of a category whose `with` holds a single declaration.
+    The compiler does not see the parameter names of such an export: keyword arguments to it are
+    matched by position (recorded finding)."""
+    g = env.g
+    for o, s in meanings(env, f, q):
+        c = g["doms"].get(o[4:]) if o.startswith("dom:") else (env.param[1] if o == "par" and env.param else None)
+        if c is not None and len(g["cats"].get(c, [])) == 1: return True
+    return False
+
 def lookup(env, x):
     if x in env.locals: return env.locals[x]
     return env.g["vals"].get(x)
+
+def shape(sig, n, keys):
+    """expected argument types of a call with n arguments, the last len(keys) keyword ones, or the reason it cannot match"""
+    ps = sig[1]
+    names = [p[0] for p in ps]
+    if n < len(keys): return "count"
+    np_ = n - len(keys)
+    if (sig[3] and keys) or any(k not in names for k in keys): return "unknownKw"
+    if any(k in names[:np_] for k in keys) or len(set(keys)) != len(keys): return "dupArg"
+    if len(ps) < np_ or any(p[2] is None and p[0] not in keys for p in ps[np_:]): return "count"
+    return [p[1] for p in ps[:np_]] + [ps[names.index(k)][1] for k in keys]
+
+def keys_free(env, keys):
+    return all(lookup(env, k) is None for k in keys)
 
 def poss(env, e):
     """set of possible types (tiBottomUp)"""
     if e[0] == "L": return {e[1]}
     if e[0] == "V":
         v = lookup(env, e[1]); return {v[0]} if v else set()
+    if not keys_free(env, e[4]): return set()
     ps = [poss(env, a) for a in e[3]]
-    return {s[2] for _, s in meanings(env, e[1], e[2])
-            if len(s[1]) == len(ps) and all(t in p for t, p in zip(s[1], ps))}
+    out = set()
+    for _, s in meanings(env, e[1], e[2]):
+        ts = shape(s, len(ps), e[4])
+        if isinstance(ts, list) and all(t in p for t, p in zip(ts, ps)): out.add(s[2])
+    return out
 
 def well_typed(env, e, t):
     """unique resolution top-down (tiTopDown)"""
     if e[0] == "L": return e[1] == t
     if e[0] == "V":
         v = lookup(env, e[1]); return bool(v) and v[0] == t
+    if not keys_free(env, e[4]): return False
     ps = [poss(env, a) for a in e[3]]
-    c = [s for _, s in meanings(env, e[1], e[2])
-         if s[2] == t and len(s[1]) == len(ps) and all(x in p for x, p in zip(s[1], ps))]
-    return len(c) == 1 and all(well_typed(env, a, x) for a, x in zip(e[3], c[0][1]))
+    c = []
+    for _, s in meanings(env, e[1], e[2]):
+        ts = shape(s, len(ps), e[4])
+        if s[2] == t and isinstance(ts, list) and all(x in p for x, p in zip(ts, ps)): c.append(ts)
+    return len(c) == 1 and all(well_typed(env, a, x) for a, x in zip(e[3], c[0]))
 
 # ----------------------------------------------------------------------------- generator
 class Gen:
@@ -119,6 +174,13 @@ class Gen:
     def rty(self):
         return self.rng.choice(TYS)
 
+    def params(self, tys, prefix, defaults=True):
+        """named parameters; with some probability the trailing ones carry default values"""
+        nd = 0
+        if defaults and tys and self.rng.random() < 0.45:
+            nd = self.rng.randint(1, len(tys))
+        return tuple((self.fresh(prefix), t, (self.rng.randint(0, 9) if i >= len(tys) - nd else None)) for i, t in enumerate(tys))
+
     def program(self):
         rng = self.rng
         # operator pool: a name has one primary signature; some names get a second one
@@ -126,14 +188,15 @@ class Gen:
         ops = {}
         for k in range(nops):
             name = "op%d" % k
-            args = tuple(self.rty() for _ in range(rng.choice((0, 1, 1, 2, 2, 3))))
-            ops[name] = [(name, args, self.rty())]
+            tys = tuple(self.rty() for _ in range(rng.choice((0, 1, 1, 2, 2, 3))))
+            anon = rng.random() < 0.25                       # `op: (T1, T2) -> R` without parameter names
+            ops[name] = [(name, self.params(tys, "k", not anon), self.rty(), anon)]
             r = rng.random()
             if r < 0.15:      # overloaded on the result type only
-                ops[name].append((name, args, rng.choice([t for t in TYS if t != ops[name][0][2]])))
-            elif r < 0.25 and args:   # overloaded on an argument type
-                a2 = list(args); i = rng.randrange(len(a2)); a2[i] = rng.choice([t for t in TYS if t != a2[i]])
-                ops[name].append((name, tuple(a2), self.rty()))
+                ops[name].append((name, self.params(tys, "k"), rng.choice([t for t in TYS if t != ops[name][0][2]]), False))
+            elif r < 0.25 and tys:   # overloaded on an argument type
+                a2 = list(tys); i = rng.randrange(len(a2)); a2[i] = rng.choice([t for t in TYS if t != a2[i]])
+                ops[name].append((name, self.params(tuple(a2), "k"), self.rty(), False))
         names = list(ops)
         ncats = rng.randint(2, 2 + self.size)
         cats = []
@@ -156,14 +219,14 @@ class Gen:
             functors.append(["F", "Fun%d" % k, "T%d" % k, rng.choice(cats)[1], rng.choice(cats)[1], None])
         imports = [("I", d[1]) for k, d in enumerate(doms) if (share and k < 2) or rng.random() < 0.7]
         funcs = []
-        for k in range(rng.randint(1, 1 + self.size)):
+        for k in range(rng.randint(1, 2 + self.size)):
             name = "fn%d" % k
-            params = [(self.fresh("a"), self.rty()) for _ in range(rng.choice((0, 1, 2, 2, 3)))]
-            fd = {"name": name, "params": params, "res": self.rty(), "body": None}
+            tys = tuple(self.rty() for _ in range(rng.choice((0, 1, 2, 2, 3))))
+            fd = {"name": name, "params": list(self.params(tys, "a")), "res": self.rty(), "body": None, "bare": False}
             funcs.append(fd)
             if rng.random() < 0.2:   # result-type overload of a file-level function
-                funcs.append({"name": name, "params": [(self.fresh("a"), t) for _, t in params],
-                              "res": rng.choice([t for t in TYS if t != fd["res"]]), "body": None})
+                funcs.append({"name": name, "params": list(self.params(tys, "a")),
+                              "res": rng.choice([t for t in TYS if t != fd["res"]]), "body": None, "bare": False})
         # file-level values (defined in this order; later statements may use earlier ones)
         gvals = []
         for k in range(rng.randint(2, 3 + self.size)):
@@ -174,8 +237,8 @@ class Gen:
         for d in doms:
             d[3] = [self.fundef_skel(s) for s in catmap[d[2]]]
             if rng.random() < 0.5:
-                d[3].append({"name": self.fresh("pv"), "params": [(self.fresh("a"), self.rty())],
-                             "res": self.rty(), "body": None})
+                d[3].append({"name": self.fresh("pv"), "params": list(self.params((self.rty(),), "a")),
+                             "res": self.rty(), "body": None, "bare": False})
         for f in functors:
             f[5] = [self.fundef_skel(s) for s in catmap[f[4]]]
         g = global_env(skel + [tuple(d[:3]) + ([],) for d in doms] + imports +
@@ -211,24 +274,31 @@ class Gen:
         rng.shuffle(adds)
         rest = imports + [("U", fd) for fd in funcs]
         rng.shuffle(rest)
-        funs_first = [("U", fd) for fd in funcs if rng.random() < 0.3]      # functions are lazy: may come first
+        funs_first = [d for d in rest if d[0] == "U" and rng.random() < 0.3]      # functions are lazy: may come first
         decls = funs_first + adds + [d for d in rest if not any(d is x for x in funs_first)]
-        decls = [d for i, d in enumerate(decls) if not any(d[0] == "U" and e[0] == "U" and d[1] is e[1] for e in decls[:i])]
         # statements and imports after the domains: a domain cannot be used outside an `add` before its definition
         # ("implementation restriction" of the compiler, not a typing rule; Prog.familyOk checks it)
         return prog + decls + top
 
     def fundef_skel(self, s):
-        return {"name": s[0], "params": [(self.fresh("a"), t) for t in s[1]], "res": s[2], "body": None}
+        """definition of the required signature: own parameter names, the same parameters defaulted"""
+        return {"name": s[0], "params": [(self.fresh("a"), p[1], p[2]) for p in s[1]], "res": s[2], "body": None, "bare": False}
 
     def fill(self, fd, env):
         rng = self.rng
-        env = Env(env.g, {x: (t, False) for x, t in fd["params"]}, True, env.param, env.sibs)
+        env = Env(env.g, {p[0]: (p[1], False) for p in fd["params"]}, True, env.param, env.sibs)
+        if rng.random() < 0.2:           # bare-expression body `f(…): R == e`
+            fd["body"] = [("e", self.expr(env, fd["res"], self.depth))]
+            fd["bare"] = True
+            return
         body = []
         for _ in range(rng.randint(0, 2 + self.size // 2)):
             r = rng.random()
             assignable = [(x, v) for x, v in env.locals.items() if not v[1]]
-            if r < 0.45 or not assignable:
+            bools = [x for x, v in list(env.locals.items()) + list(env.g["vals"].items()) if v[0] == "b"]
+            if r < 0.2 and bools:
+                body.append(("x", rng.choice(bools), self.expr(env, fd["res"], self.depth)))     # c => v
+            elif r < 0.55 or not assignable:
                 k = "c" if rng.random() < 0.35 else "v"
                 x, t = self.fresh("l"), self.rty()
                 body.append((k, x, t, self.expr(env, t, self.depth)))
@@ -236,7 +306,7 @@ class Gen:
             else:
                 x, v = rng.choice(assignable)
                 body.append(("a", x, self.expr(env, v[0], self.depth)))
-        body.append(("r", self.expr(env, fd["res"], self.depth)))
+        body.append((rng.choice("re"), self.expr(env, fd["res"], self.depth)))      # `return e` or the body's last expression
         fd["body"] = body
 
     def callables(self, env, t):
@@ -257,6 +327,22 @@ class Gen:
                 if s[2] == t: out.append((s[0], env.param[0], s))
         return out
 
+    def call_form(self, env, f, q, s):
+        """(number of positional arguments, keywords): omit defaulted parameters, name some by keyword"""
+        rng = self.rng
+        ps = s[1]
+        nokw = s[3] or single_export(env, f, q)     # see single_export: no keywords there in an original
+        usable = lambda p: (not nokw) and lookup(env, p[0]) is None
+        np_ = len(ps)
+        # positional prefix: shorten it while everything behind it is defaulted or can be named
+        while np_ > 0 and rng.random() < 0.45 and (ps[np_ - 1][2] is not None or usable(ps[np_ - 1])):
+            np_ -= 1
+        keys = [p[0] for p in ps[np_:] if usable(p) and (p[2] is None or rng.random() < 0.5)]
+        if any(p[2] is None and p[0] not in keys for p in ps[np_:]):
+            return len(ps), []
+        rng.shuffle(keys)
+        return np_, keys
+
     def expr(self, env, t, depth):
         rng = self.rng
         for _ in range(6):
@@ -269,7 +355,10 @@ class Gen:
                     cs = [c for c in cs if c[1] is not None and len(meanings(env, c[0], None)) >= 2] or cs
                 if cs:
                     f, q, s = rng.choice(cs)
-                    e = ("A", f, q, [self.expr(env, a, depth - 1) for a in s[1]])
+                    np_, keys = self.call_form(env, f, q, s)
+                    names = [p[0] for p in s[1]]
+                    tys = [p[1] for p in s[1][:np_]] + [s[1][names.index(k)][1] for k in keys]
+                    e = ("A", f, q, [self.expr(env, a, depth - 1) for a in tys], keys)
                     if well_typed(env, e, t):
                         return e
                     continue
@@ -279,40 +368,62 @@ class Gen:
             break
         return ("L", t, rng.randint(0, 9))
 
+def probe_single_export():
+    """well typed, and rejected by the compiler (recorded finding): the only export of a category is
+    called with a keyword argument for its second parameter; the keyword is matched by position"""
+    sg = ("op5", (("k5", "i", 2), ("k6", "s", 6)), "i", False)
+    return [("C", "CatP", [sg]),
+            ("D", "DomP", "CatP", [{"name": "op5", "params": [("a1", "i", 2), ("a2", "s", 6)], "res": "i",
+                                    "body": [("e", ("V", "a1"))], "bare": True}]),
+            ("S", ("v", "gs", "s", ("L", "s", 1))),
+            ("S", ("v", "gi", "i", ("A", "op5", "DomP", [("V", "gs")], ["k6"])))]
+
 def seed_program():
     """fixed program exercising every catalogue kind (checked first in every run)"""
     mi = "m"
-    def fd(name, params, res, body): return {"name": name, "params": params, "res": res, "body": body}
+    def fd(name, params, res, body, bare=False):
+        return {"name": name, "params": [p if len(p) == 3 else (p[0], p[1], None) for p in params], "res": res, "body": body, "bare": bare}
+    def sg(name, params, res, anon=False):
+        return (name, tuple(p if len(p) == 3 else (p[0], p[1], None) for p in params), res, anon)
     V, L = (lambda x: ("V", x)), (lambda t, n: ("L", t, n))
-    def A(f, q, *a): return ("A", f, q, list(a))
+    def A(f, q, *a, **kw): return ("A", f, q, list(a) + list(kw.values()), list(kw.keys()))
     return [
-        ("C", "Cat0", [("f0", (mi,), mi), ("g0", (mi, "b"), "b"), ("g0", (mi, "b"), "s")]),
-        ("C", "Cat1", [("f0", (mi,), mi), ("h1", ("i",), "i")]),
+        ("C", "Cat0", [sg("f0", [("kx", mi)], mi), sg("g0", [("ka", mi), ("kb", "b")], "b", True),
+                       sg("g0", [("kc", mi), ("kd", "b")], "s"),
+                       sg("ar", [("kw", mi), ("kh", mi, 1)], mi)]),
+        ("C", "Cat1", [sg("f0", [("kx1", mi)], mi), sg("h1", [("ky", "i")], "i", True)]),
         ("D", "Dom0", "Cat0", [
             fd("f0", [("x", mi)], mi, [("r", V("x"))]),
-            fd("g0", [("x", mi), ("b", "b")], "b", [("r", V("b"))]),
-            fd("g0", [("x", mi), ("b", "b")], "s", [("r", L("s", 1))])]),
+            fd("g0", [("x1", mi), ("b1", "b")], "b", [("e", V("b1"))]),
+            fd("g0", [("x2", mi), ("b2", "b")], "s", [("e", L("s", 1))], True),
+            fd("ar", [("w", mi), ("h", mi, 1)], mi, [("x", "cg", V("h")), ("e", A("f0", None, V("w")))])]),
         ("D", "Dom1", "Cat1", [
-            fd("f0", [("x", mi)], mi, [("r", L(mi, 1))]),
-            fd("h1", [("x", "i")], "i", [("r", V("x"))])]),
+            fd("f0", [("x3", mi)], mi, [("r", L(mi, 1))]),
+            fd("h1", [("x4", "i")], "i", [("e", V("x4"))], True)]),
         ("F", "Fun0", "T", "Cat0", "Cat1", [
-            fd("f0", [("x", mi)], mi, [("r", A("f0", "T", A("f0", "T", V("x"))))]),
-            fd("h1", [("x", "i")], "i", [
+            fd("f0", [("x5", mi)], mi, [("r", A("f0", "T", A("ar", "T", V("x5"), kh=A("ar", "T", V("x5")))))]),
+            fd("h1", [("x6", "i")], "i", [
                 ("v", "lb", "b", A("g0", "T", L(mi, 3), L("b", 0))),
-                ("v", "ls", "s", A("g0", "T", L(mi, 3), V("lb"))),
-                ("r", V("x"))])]),
+                ("v", "ls", "s", A("g0", "T", L(mi, 3), kd=V("lb"))),
+                ("x", "lb", V("x6")),
+                ("r", V("x6"))])]),
         ("I", "Dom0"), ("I", "Dom1"),
-        ("S", ("c", "k", mi, L(mi, 3))),
-        ("S", ("v", "v", mi, L(mi, 4))),
-        ("S", ("v", "i", "i", L("i", 4))),
+        ("U", fd("area", [("aw", mi), ("ah", mi, 2)], mi, [("e", A("ar", "Dom0", V("aw"), kh=V("ah")))])),
         ("U", fd("top0", [("a", mi), ("s", "s")], mi, [
             ("v", "w", mi, V("a")),
             ("c", "lk", mi, A("f0", "Dom0", V("k"))),
             ("a", "w", A("f0", "Dom1", A("f0", "Dom0", V("k")))),
             ("v", "j", "i", A("h1", None, V("i"))),
-            ("r", V("w"))])),
+            ("x", "cg", A("area", None, V("w"))),
+            ("r", A("area", None, ah=V("w"), aw=V("a")))])),
+        ("S", ("c", "k", mi, L(mi, 3))),
+        ("S", ("v", "v", mi, L(mi, 4))),
+        ("S", ("v", "i", "i", L("i", 4))),
+        ("S", ("c", "cg", "b", L("b", 0))),
         ("S", ("a", "v", A("f0", "Dom0", V("v")))),
         ("S", ("a", "v", A("top0", None, V("v"), L("s", 7)))),
+        ("S", ("a", "v", A("area", None, V("v"), ah=V("k")))),
+        ("S", ("a", "v", A("ar", "Dom0", V("v"), V("k")))),
     ]
 
 # ----------------------------------------------------------------------------- serialisation
@@ -320,17 +431,22 @@ def ser_expr(e, out):
     if e[0] == "L": out += ["L", e[1], str(e[2])]
     elif e[0] == "V": out += ["V", e[1]]
     else:
-        out += ["A", e[1], e[2] or "-", str(len(e[3]))]
+        out += ["A", e[1], e[2] or "-", str(len(e[3])), str(len(e[4]))] + list(e[4])
         for a in e[3]: ser_expr(a, out)
 
 def ser_stmt(s, out):
     if s[0] in "cv": out += [s[0], s[1], s[2]]; ser_expr(s[3], out)
     elif s[0] == "a": out += ["a", s[1]]; ser_expr(s[2], out)
-    else: out += ["r"]; ser_expr(s[1], out)
+    elif s[0] == "x": out += ["x", s[1]]; ser_expr(s[2], out)
+    else: out += [s[0]]; ser_expr(s[1], out)
+
+def ser_params(ps, out):
+    out.append(str(len(ps)))
+    for x, t, d in ps: out += [x, t, "-" if d is None else str(d)]
 
 def ser_def(fd, out):
-    out += [fd["name"], str(len(fd["params"]))]
-    for x, t in fd["params"]: out += [x, t]
+    out += [fd["name"], "1" if fd.get("bare") else "0"]
+    ser_params(fd["params"], out)
     out += [fd["res"], str(len(fd["body"]))]
     for s in fd["body"]: ser_stmt(s, out)
 
@@ -339,7 +455,8 @@ def ser_prog(p):
     for d in p:
         if d[0] == "C":
             out += ["C", d[1], str(len(d[2]))]
-            for s in d[2]: out += [s[0], str(len(s[1]))] + list(s[1]) + [s[2]]
+            for s in d[2]:
+                out += [s[0], "1" if s[3] else "0"]; ser_params(s[1], out); out.append(s[2])
         elif d[0] == "D":
             out += ["D", d[1], d[2], str(len(d[3]))]
             for fd in d[3]: ser_def(fd, out)
@@ -351,6 +468,36 @@ def ser_prog(p):
         else: out += ["S"]; ser_stmt(d[1], out)
     return " ".join(out)
 
+def stmt_expr(s):
+    return s[3] if s[0] in "cv" else (s[2] if s[0] in "ax" else s[1])
+
+def locate(prog, site):
+    """(environment, statement, expression node or None, enclosing fundef or None) at a site"""
+    idx = [int(x) for x in site.split(".")] if site != "-" else []
+    g = global_env(prog)
+    d = prog[idx[0]]
+    fdef, env, rest = None, Env(g), idx[1:]
+    if d[0] in "DF":
+        defs = d[-1]
+        if not rest: return Env(g), None, None, None
+        fdef = defs[rest[0]]; rest = rest[1:]
+        env = Env(g, param=((d[2], d[3]) if d[0] == "F" else None), sibs=[sig_of(x) for x in defs])
+    elif d[0] == "U":
+        fdef = d[1]
+    if fdef is not None:
+        loc = {p[0]: (p[1], False) for p in fdef["params"]}
+        for s in fdef["body"]:
+            if s[0] in "cv": loc[s[1]] = (s[2], s[0] == "c")
+        env = Env(g, loc, True, env.param, env.sibs)
+        st = fdef["body"][rest[0]]; rest = rest[1:]
+    else:
+        st = d[1]
+    node = None
+    if rest:
+        node = stmt_expr(st)
+        for a in rest[1:]: node = node[3][a]
+    return env, st, node, fdef
+
 def parse_answer(line):
     res, _, tags = line.partition("\t")
     recs = res.split(RS)
@@ -361,9 +508,10 @@ def parse_answer(line):
         f = r.split("|")
         span = tuple(int(x) for x in f[7].split()) if f[7] != "?" else None
         sspan = tuple(int(x) for x in f[8].split()) if f[8] != "?" else None
+        dspan = tuple(int(x) for x in f[9].split()) if f[9] != "?" else None
         out["mutants"].append({"kind": f[1], "params": f[2], "site": f[3], "expected": f[4], "model_kind": f[5],
-                               "model_site": f[6], "span": span, "stmt_span": sspan,
-                               "text": f[9].replace(NL, "\n") + "\n"})
+                               "model_site": f[6], "span": span, "stmt_span": sspan, "def_span": dspan,
+                               "family_ok": f[10] == "1", "text": f[11].replace(NL, "\n") + "\n"})
     return out
 
 def model_batch(progs):
@@ -431,14 +579,42 @@ def judge_mutant(r, m):
         return (None, "", "tight")
     if any(in_span(e, m["stmt_span"]) for e in errs):
         return (None, "", "loose")
+    if m.get("only_stmt") and any(e[0] == m["def_span"][0] and in_span(e, m["def_span"]) for e in errs):
+        return (None, "", "block")
     return ("wrong-position:" + m["kind"], "errors at %s, mutated construct spans %s (statement %s)" % (errs[:4], m["span"], m["stmt_span"]), None)
 
-def shape_of(prog, site):
+VALUE_FORMS = {"r": "return", "e": "last-expr", "x": "exit-value"}
+
+def value_form(prog, site):
+    """for a statement-level site: which value position of a function body it is (None otherwise)"""
+    env, st, node, fdef = locate(prog, site)
+    if st is None or node is not None or st[0] not in VALUE_FORMS: return None
+    return "bare-body" if (fdef and fdef.get("bare")) else VALUE_FORMS[st[0]]
+
+def callee_single_export(prog, site):
+    env, st, node, fdef = locate(prog, site)
+    return node is not None and node[0] == "A" and single_export(env, node[1], node[2])
+
+def callee_anonymous(prog, site):
+    """some meaning of the callee at the site is a signature written without parameter names"""
+    env, st, node, fdef = locate(prog, site)
+    if node is None or node[0] != "A": return False
+    ms = meanings(env, node[1], node[2])
+    return any(m[1][3] for m in ms)
+
+def shape_of(prog, site, kind=None):
     idx = [int(x) for x in site.split(".")] if site != "-" else []
     d = prog[idx[0]] if idx and idx[0] < len(prog) else ("?",)
     where = {"C": "cat", "D": "dom", "F": "functor", "U": "func", "I": "import", "S": "top"}.get(d[0], "?")
     below = len(idx) - {"D": 3, "F": 3, "U": 2, "S": 1}.get(d[0], 1)
     what = "decl" if (d[0] in "DF" and len(idx) == 1) else ("stmt" if below == 0 else "expr")
+    if what == "stmt":
+        vf = value_form(prog, site)
+        if vf: what = vf
+    if kind == "unknownKeyword" and callee_anonymous(prog, site):
+        return "anon-signature"
+    if kind in ("unknownKeyword", "keywordDupPositional") and callee_single_export(prog, site):
+        return "single-export-category"
     return where + ":" + what
 
 # ----------------------------------------------------------------------------- shrinking
@@ -460,7 +636,7 @@ def reductions(prog):
             for k in range(len(fd["body"]) - 1):
                 yield prog[:i] + [("U", dict(fd, body=fd["body"][:k] + fd["body"][k + 1:]))] + prog[i + 1:]
 
-def shrink(build, prog, cls, kind, budget=80):
+def shrink(build, prog, cls, kind, budget=200):
     """greedy: keep a reduction if the model still accepts it and the same violation class shows
     (for mutant classes: on some mutant of the same kind).  Returns (prog, text, diagnostics)."""
     def fails(p):
@@ -499,31 +675,42 @@ def run_part(ctx, build):
     # budget in compiler runs (a rejected compile takes ~0.1 s; 16 workers): whole programs are
     # taken until the budget is reached, every mutant of a taken program is compiled
     budget = int(os.environ.get("VERIF_TYPING_BUDGET", 60000 if thorough else 3000))
-    progs, answers, total, skipped = [], [], 0, 0
+    progs, answers, total = [], [], 0
     first = True
     while total < budget:
-        batch = [seed_program()] if first else [Gen(rng, rng.choice((0, 0, 1, 1, 2))).program() for _ in range(6)]
+        batch = [seed_program(), probe_single_export()] if first else [Gen(rng, rng.choice((0, 0, 1, 1, 2))).program() for _ in range(6)]
         first = False
         for p, a in zip(batch, model_batch(batch)):
             if total >= budget: break
-            if not thorough:
-                # quick tier: every eligible (kind, site[, argument]) is compiled, but of the up to three
-                # wrong literal types offered for one argument only one (seeded choice); thorough: all
+            a["enumerated"] = len(a["mutants"])
+            seen_text, uniq = set(), []
+            for m in a["mutants"]:            # two kinds may produce the same text at one site: compile it once
+                if (m["site"], m["text"]) not in seen_text:
+                    seen_text.add((m["site"], m["text"])); uniq.append(m)
+            a["mutants"] = uniq
+            if p[0][1] == "CatP":
+                a["mutants"] = []         # the probe is judged as an original only
+            if not thorough and progs:
+                # quick tier (the fixed first program is always complete): of the up to three wrong literal
+                # types offered for one argument one is compiled, and the frequent kinds are sampled down
+                # (seeded choice) to PER_PROGRAM sites per program; the rare kinds are always complete
                 by_arg = {}
                 for m in a["mutants"]:
                     if m["kind"] == "wrongArgType":
                         by_arg.setdefault((m["site"], m["params"].split()[0]), []).append(m)
                 chosen = {id(rng.choice(v)) for v in by_arg.values()}
-                a["enumerated"] = len(a["mutants"])
-                a["mutants"] = [m for m in a["mutants"] if m["kind"] != "wrongArgType" or id(m) in chosen]
-            if not thorough and len(a["mutants"]) > 330 and progs:
-                skipped += 1          # quick tier: many medium programs rather than few large ones
-                continue
+                ms = [m for m in a["mutants"] if m["kind"] != "wrongArgType" or id(m) in chosen]
+                frequent = [m for m in ms if m["kind"] in COMMON_KINDS]
+                if len(frequent) > PER_PROGRAM:
+                    keep = {id(m) for m in rng.sample(frequent, PER_PROGRAM)}
+                    ms = [m for m in ms if m["kind"] not in COMMON_KINDS or id(m) in keep]
+                a["mutants"] = ms
             progs.append(p); answers.append(a)
             total += 1 + len(a["mutants"])
-    stats = {"programs": len(progs), "large_programs_skipped": skipped, "mutants_enumerated": sum(a.get("enumerated", len(a["mutants"])) for a in answers), "model_rejected_generated": 0, "mutants": 0, "originals_accepted": 0,
+    stats = {"programs": len(progs), "mutants_enumerated": sum(a.get("enumerated", len(a["mutants"])) for a in answers), "model_rejected_generated": 0, "mutants": 0, "originals_accepted": 0,
              "mutants_rejected": 0, "position_tight": 0, "position_loose": 0, "model_inconsistent": 0,
-             "per_kind": {k: {"eligible": 0, "rejected": 0, "tight": 0, "loose": 0} for k in KINDS},
+             "position_block": 0,
+             "per_kind": {k: {"eligible": 0, "rejected": 0, "tight": 0, "loose": 0, "block": 0} for k in KINDS},
              "gate_checked": 0, "gate_mismatch": 0, "miniald": "absent"}
     tags = {}
     cmd = command_line(build)
@@ -541,12 +728,19 @@ def run_part(ctx, build):
         for m in a["mutants"]:
             stats["per_kind"][m["kind"]]["eligible"] += 1
             tags[m["kind"]] = tags.get(m["kind"], 0) + 1
-            if m["model_kind"] != m["expected"] or m["model_site"] != m["site"]:
+            if m["kind"] == "wrongReturnType":
+                vf = "value-position:%s" % value_form(p, m["site"])
+                tags[vf] = tags.get(vf, 0) + 1
+            elif m["kind"] == "unknownKeyword" and callee_anonymous(p, m["site"]):
+                tags["unknownKeyword:anon-signature"] = tags.get("unknownKeyword:anon-signature", 0) + 1
+            if m["model_kind"] != m["expected"] or m["model_site"] != m["site"] or not m["family_ok"]:
                 # executable form of `mutant_ill_typed` on this instance
                 stats["model_inconsistent"] += 1
                 ctx.violation("typing|model-inconsistent:" + m["kind"], "typecheck of the mutant gives %s@%s, theorem says %s@%s"
                               % (m["model_kind"], m["model_site"], m["expected"], m["site"]),
                               {"kind": "model-inconsistent", "request": ser_prog(p), "mutant": m}, found_input=False)
+            _, st_, _, fd_ = locate(p, m["site"])
+            m["only_stmt"] = bool(fd_ and st_ is not None and not fd_.get("bare") and len(fd_["body"]) == 1 and m["def_span"])
             jobs.append((compile_text, (build, m["text"]), {})); meta.append((pi, m))
     results = aldor.run_many(jobs, workers=16)
     gate_reqs, gate_obs = [], []
@@ -565,10 +759,10 @@ def run_part(ctx, build):
                 if pi % 8 == 0:
                     ctx.sample({"program": pi, "lines": a["text"].count("\n"), "mutants": len(a["mutants"]), "verdict": "accepted, outputs present"})
                 continue
-            sig = "typing|%s|%s" % (j[0], "+".join(sorted({d[0] for d in p})))
+            sig = "typing|%s|%s" % (j[0], "single-export-category" if p[0][1] == "CatP" else "+".join(sorted({d[0] for d in p})))
             if sig in reported: continue
             reported.add(sig)
-            q, best = shrink(build, p, j[0], None) if j[0] == "rejected-original" else (p, None)
+            q, best = shrink(build, p, j[0], None) if (j[0] == "rejected-original" and p[0][1] != "CatP") else (p, None)
             text, rr = best if best else (a["text"], r)
             ctx.finding(sig, "a program of the well-typed family (accepted by the modelled typing judgement) is not accepted by the compiler: " + j[1],
                         {"kind": j[0], "source": text, "command": cmd,
@@ -581,7 +775,7 @@ def run_part(ctx, build):
             stats["mutants_rejected"] += 1; pk["rejected"] += 1
             stats["position_" + rule] += 1; pk[rule] += 1
             continue
-        shape = shape_of(p, m["site"])
+        shape = shape_of(p, m["site"], m["kind"])
         sig = "typing|%s|%s" % (cls, shape)
         stats["failed"] = stats.get("failed", 0) + 1
         if sig in reported: continue
